@@ -92,3 +92,38 @@ func H_SELF_deadlock() {
 	<-c
 	vrt.Reach("done")
 }
+
+// H_SELF_maps: range over maps (insertion order), delete, range over strings.
+func H_SELF_maps() {
+	x := vrt.Float("x")
+	m := map[string]float64{}
+	m["a"] = x
+	m["b"] = 2 * x
+	m["c"] = 3 * x
+	delete(m, "b")
+	m["d"] = 4 * x
+	sum := 0.0
+	keys := ""
+	for k, v := range m {
+		sum += v
+		keys += k
+	}
+	vrt.AssertEqF("map range sum", sum, 8*x)
+	vrt.Assert("map range visits every live key once", len(keys) == 3 && len(m) == 3)
+	n := 0
+	for range "héllo" {
+		n++
+	}
+	vrt.Assert("string range counts runes", n == 5)
+	cnt := map[*int]int{}
+	p, q := new(int), new(int)
+	cnt[p]++
+	cnt[q] += 2
+	cnt[p]++
+	tot := 0
+	for _, c := range cnt {
+		tot += c
+	}
+	vrt.Assert("pointer-keyed map", tot == 4 && cnt[p] == 2)
+	vrt.Reach("done")
+}
